@@ -9,6 +9,7 @@ CONSTANTS
   H = 200
   U = 25
   AlgVariant = "resumestop"
+  Cuts = {"none"}
   Export = FALSE
 INVARIANT OnLattice
 INVARIANT AlgRefinesObs
